@@ -106,3 +106,52 @@ theorem genmp_public_key_switch_finish (o : Ops α) (pa : α → α → R α) (c
 theorem genmp_public_key_finish (o : Ops α) (pa : α → α → R α) (c0 c1 : α) (p : Reveal α) :
     GenMp.public_key_finish o c0 c1 pa p = (do let h ← p.finish o; pure (h, c1)) := by
   unfold GenMp.public_key_finish; rw [genmp_reveal_finish]
+
+/-! ### receive wrappers and a whole delivery history through the GENERATED `receive` -/
+
+theorem genmp_key_switch_receive (p : Reveal α) (sender : Nat) (m : α) (rest : List α) :
+    GenMp.key_switch_receive p sender (m :: rest) = (do let p' ← p.receive sender m; pure (p', rest)) := by
+  unfold GenMp.key_switch_receive; rw [genmp_reveal_receive]; simp [bind_assoc]
+
+theorem genmp_decrypt_receive (p : Reveal α) (sender : Nat) (m : α) (rest : List α) :
+    GenMp.decrypt_receive p sender (m :: rest) = (do let p' ← p.receive sender m; pure (p', rest)) := by
+  unfold GenMp.decrypt_receive; rw [genmp_reveal_receive]; simp [bind_assoc]
+
+theorem genmp_public_key_receive (p : Reveal α) (sender : Nat) (m : α) (rest : List α) :
+    GenMp.public_key_receive p sender (m :: rest) = (do let p' ← p.receive sender m; pure (p', rest)) := by
+  unfold GenMp.public_key_receive; rw [genmp_reveal_receive]; simp [bind_assoc]
+
+/-- the public-key switch message is TWO polynomials: the first goes to the h0 object, the second to the h1 object, same slot -/
+theorem genmp_public_key_switch_receive (p0 p1 : Reveal α) (sender : Nat) (m0 m1 : α) (rest : List α) :
+    GenMp.public_key_switch_receive p0 p1 sender (m0 :: m1 :: rest)
+      = (do let p0' ← p0.receive sender m0; let p1' ← p1.receive sender m1; pure (p0', p1', rest)) := by
+  unfold GenMp.public_key_switch_receive
+  rw [genmp_reveal_receive]
+  cases p0.receive sender m0 with
+  | error e => rfl
+  | ok q => simp [genmp_ok_bind, genmp_reveal_receive, bind_assoc]
+
+/-- a delivery history fed message by message to the generated `receive` -/
+def genRecvAll (p : Reveal α) : List (Nat × α) → R (Reveal α)
+  | [] => .ok p
+  | (s, m) :: rest => match GenMp.reveal_receive p s [m] with
+    | .ok (p', _) => genRecvAll p' rest
+    | .error e => .error e
+
+theorem genmp_recvAll (d : List (Nat × α)) : ∀ p : Reveal α, genRecvAll p d = p.receiveAll d := by
+  induction d with
+  | nil => intro p; rfl
+  | cons x xs ih =>
+    intro p; obtain ⟨s, m⟩ := x
+    simp only [genRecvAll, Reveal.receiveAll, genmp_reveal_receive]
+    cases p.receive s m with
+    | error e => rfl
+    | ok q => simp [genmp_ok_bind, pure, Except.pure, ih]
+
+/-- generated receive* + generated finish = the model's `revealRun` -/
+theorem genmp_run (o : Ops α) (pa : α → α → R α) (count id : Nat) (own : α) (d : List (Nat × α)) :
+    (do let p ← genRecvAll (Reveal.new count id own) d; GenMp.reveal_finish o pa false p) = revealRun o count id own d := by
+  unfold revealRun; rw [genmp_recvAll]
+  cases (Reveal.new count id own).receiveAll d with
+  | error e => rfl
+  | ok q => simp [genmp_ok_bind, genmp_reveal_finish]
